@@ -171,7 +171,8 @@ def parseReformation (s : String) : Option Calendar :=
       | .error _ => none
     | none => none
 
-def bytesOf (s : String) : Bytes := s.toUTF8.toList
+/-- the bytes of an ASCII option name -/
+def bytesOf (s : String) : Bytes := s.toList.map fun c => c.toNat.toUInt8
 
 /-- main.rs `Command::from_parser` -/
 def fromParser : Nat → Parser → Options → List String → Command
@@ -309,16 +310,39 @@ inductive RunRes where
   | error
   | ok (lines : List String)
 
-/-- the comma / bracket patching at the end of `Options::run` -/
-def jsonPatch (output : List String) : List String :=
-  let length := output.length
-  let out1 :=
-    if length > 2 then
-      output.mapIdx fun i s => if 1 ≤ i && i < length - 1 then s ++ "," else s
-    else output
-  match out1.reverse with
+/-- the text appended to the last piece: closes the `dates` array and the document -/
+def jsonTail : String := "\n    ]\n}"
+
+/-- first loop of the patching at the end of `Options::run`: when there are more than two
+pieces, a comma after every piece except the first (the document head) and the last -/
+def withCommas (output : List String) : List String :=
+  if output.length > 2 then
+    output.mapIdx fun i s => if 1 ≤ i && i < output.length - 1 then s ++ "," else s
+  else output
+
+/-- `if let Some(s) = output.last_mut() { s.push_str("\n    ]\n}") }` -/
+def closeLast (output : List String) : List String :=
+  match output.reverse with
   | [] => []
-  | last :: revInit => ((last ++ "\n    ]\n}") :: revInit).reverse
+  | last :: revInit => ((last ++ jsonTail) :: revInit).reverse
+
+/-- the comma / bracket patching at the end of `Options::run` -/
+def jsonPatch (output : List String) : List String := closeLast (withCommas output)
+
+/-- the body of the `for arg in args` loop of `Options::run`: `acc` is the output so far, or
+the failure that ended the loop (`true` = panic, `false` = `ParsingFailed`) -/
+def runStep (o : Options) (acc : Except Bool (List String)) (arg : String) :
+    Except Bool (List String) :=
+  match acc with
+  | .error e => .error e
+  | .ok lines =>
+    match o.parseArg arg with
+    | none => .error false
+    | some (.date d) => .ok (lines ++ [o.dateToJdn d])
+    | some (.jdn j) =>
+      match o.jdnToDate j with
+      | some s => .ok (lines ++ [s])
+      | none => .error true
 
 /-- main.rs `Options::run`; `today` is the JDN the system clock shows (a parameter) -/
 def Options.run (o : Options) (today : Int) (args : List String) : RunRes :=
@@ -328,18 +352,7 @@ def Options.run (o : Options) (today : Int) (args : List String) : RunRes :=
       match o.calendar.atJdn? today with
       | some d => .ok [o.dateToJdn d]
       | none => .error true
-    else
-      args.foldl (init := .ok []) fun acc arg =>
-        match acc with
-        | .error e => .error e
-        | .ok lines =>
-          match o.parseArg arg with
-          | none => .error false
-          | some (.date d) => .ok (lines ++ [o.dateToJdn d])
-          | some (.jdn j) =>
-            match o.jdnToDate j with
-            | some s => .ok (lines ++ [s])
-            | none => .error true
+    else args.foldl (runStep o) (.ok [])
   match body with
   | .error true => .panic
   | .error false => .error
@@ -349,17 +362,20 @@ def Options.run (o : Options) (today : Int) (args : List String) : RunRes :=
 
 def padRight (w : Nat) (s : String) : String := s ++ sp (w - s.length)
 
+/-- one row of the `Command::Countries` listing; `none` = an `.expect()` fired -/
+def countryStep (acc : Option (List String)) (e : String × String × Int) : Option (List String) :=
+  match acc, Calendar.mkReforming e.2.2 with
+  | some lines, .ok cal =>
+    match cal.lastJulianDate, cal.firstGregorianDate with
+    | some lj, some fg =>
+      some (lines ++ [s!"{e.1}    {padRight 14 e.2.1}  JDN {e.2.2}  {String.ofList (JV.fmtDate lj)}   {String.ofList (JV.fmtDate fg)}"])
+    | _, _ => none
+  | _, _ => none
+
 /-- the body of `Command::Countries` in `Command::run` -/
 def countriesLines : Option (List String) :=
-  nationalReformations.foldl (init := some ["Code  Country         Reformation  Last Julian  First Gregorian"])
-    fun acc (code, country, reform) =>
-      match acc, Calendar.mkReforming reform with
-      | some lines, .ok cal =>
-        match cal.lastJulianDate, cal.firstGregorianDate with
-        | some lj, some fg =>
-          some (lines ++ [s!"{code}    {padRight 14 country}  JDN {reform}  {String.ofList (JV.fmtDate lj)}   {String.ofList (JV.fmtDate fg)}"])
-        | _, _ => none
-      | _, _ => none
+  nationalReformations.foldl countryStep
+    (some ["Code  Country         Reformation  Last Julian  First Gregorian"])
 
 /-- what the process does: exit status, stdout, whether stderr is non-empty -/
 inductive Outcome where
